@@ -8,6 +8,16 @@ verus! {
 //@include prelude/rt.rs
 //@include prelude/er.rs
 
+// The proof is about the trait's DEFAULT bodies; it speaks for a type only as long as that type does not override them.
+// These pins make an override appear as a lost anchor (exit 2, then the native witness search), not as silence:
+//@expect-in yui/src/types/poly/poly.rs impl<const X: char, R> EucRing for Poly<X, R> where R: Field, for<'x> &'x R: FieldOps<R> {}
+//@expect-in yui/src/types/poly/h_poly.rs impl<const X: char, R> EucRing for HPoly<X, R> where R: Field, for<'x> &'x R: FieldOps<R> {}
+//@expect-in yui/src/types/qint.rs impl<I> EucRing for QuadInt<I, -1> where I: Integer, for<'x> &'x I: IntOps<I> {}
+//@expect-in yui/src/types/qint.rs impl<I> EucRing for QuadInt<I, -3> where I: Integer, for<'x> &'x I: IntOps<I> {}
+//@expect-in yui/src/types/ratio.rs impl<T> EucRing for Ratio<T> where T: EucRing, for<'x> &'x T: EucRingOps<T> {}
+//@expect-in yui/src/types/ff.rs impl<const p: I> EucRing for FF<p> {}
+//@expect-in yui/src/types/f2.rs impl EucRing for FF2 {}
+
 //@include units/euc_ring/body.inc
 
 } // verus!
